@@ -422,7 +422,45 @@ def check_json_number(case):
     return {"nontrivial": len(text) >= 16 or not math.isfinite(exp) or interesting(exp), "sample": text[:80]}
 
 
+# ---------------------------------------------------------------------------------------------
+# (e) digit strings whose value crosses the largest double at the last digit, the last but one, ... (parseInt / parseOctal /
+# parseHex, and the 0x / 0o scalars of parseYaml): finite and correctly read, or an error - never an infinity
+from .c20 import check_radix as _check_radix
+
+THRESHOLD = {8: 342, 10: 309, 16: 256}   # number of digits of the largest double in each radix
+
+
+@st.composite
+def threshold_digits_case(draw):
+    radix = draw(st.sampled_from([8, 10, 16]))
+    top = {8: "7", 10: "9", 16: "f"}[radix]
+    n = THRESHOLD[radix] + draw(st.integers(-2, 3))
+    first = draw(st.sampled_from(["1", "1", top, {8: "3", 10: "2", 16: "8"}[radix], {8: "4", 10: "1", 16: "F"}[radix]]))
+    fill = draw(st.sampled_from(["0", "0", top, "r"]))
+    if fill == "r":
+        rest = "".join(draw(st.lists(st.sampled_from("0123456789abcdef"[:radix]), min_size=n - 1, max_size=n - 1)))
+    else:
+        rest = fill * (n - 1)
+    s = first + rest
+    if radix == 10 and draw(st.booleans()):
+        s = "-" + s
+    return {"radix": radix, "s": s, "yaml": draw(st.booleans())}
+
+
+def check_threshold_digits(case):
+    out = _check_radix({"radix": case["radix"], "s": case["s"]})
+    if case["yaml"] and case["radix"] in (8, 16):
+        lit = ("0o" if case["radix"] == 8 else "0x") + case["s"]
+        r = util.eval_one(f"std.parseYaml({V.jsonnet_string(lit)})", want=["typed"])
+        if util.is_ok(r):
+            got = util.typed(r)
+            if V.is_num(got) and not math.isfinite(V.h2f(got["n"])):
+                raise Violation("nonfinite:parseYaml", f"std.parseYaml({lit[:40]!r}...) ({len(lit)} characters) gave {V.show(got)}")
+    return {"nontrivial": True, "labels": out.get("labels", []), "sample": {"radix": case["radix"], "digits": len(case["s"]), "start": case["s"][:12]}}
+
+
 CHECKS = [
+    Check("digit_strings_at_the_overflow_threshold", check_threshold_digits, threshold_digits_case, quick=60, thorough=2000),
     Check("no_nan_inf", check_arith, arith_case, quick=250, thorough=8000),
     Check("literals", check_literal, literal_case, quick=400, thorough=12000),
     Check("printing", check_print, print_case, quick=300, thorough=10000),
